@@ -33,6 +33,16 @@ import (
 type lockSpec struct {
 	Packages []string `json:"packages"` // directories relative to the repo root
 	Depth    int      `json:"depth"`    // inlining depth
+	// calltrace mode (coq/gen/GenOrder.v): the tracked calls become events (KCall, label); lock and channel
+	// operations are dropped.  A call matches when the text of its function part (as written at the call site,
+	// e.g. "meta.AddMetricsMetaEntry", "ms.mBlock.dpWalState.dpWal.DeleteWAL") or "callee:" + the full name of
+	// its static callee equals one of the label's patterns.  A tracked call is a leaf: it is not inlined.
+	Track []trackSpec `json:"track"`
+}
+
+type trackSpec struct {
+	Label string   `json:"label"`
+	Match []string `json:"match"`
 }
 
 type lfunc struct {
@@ -53,6 +63,10 @@ type lctx struct {
 	maxDepth int
 	goBodies []goBody // bodies of `go func(){...}()` statements: roots of their own (a new goroutine holds no lock)
 	goCount  map[string]int
+	prefix   string         // "lk_" (locktrace) or "co_" (calltrace)
+	track    map[string]int // pattern -> label id (calltrace mode)
+	hits     map[int]int    // label id -> number of call sites matched
+	seenSite map[token.Pos]bool
 }
 
 type goBody struct {
@@ -270,6 +284,21 @@ func (c *lctx) resolve(st *fstate, call *ast.CallExpr) *lfunc {
 }
 
 func (c *lctx) callEv(st *fstate, call *ast.CallExpr) string {
+	if c.track != nil {
+		id, ok := c.track[exprText(call.Fun)]
+		if !ok {
+			if fn := typeutil.StaticCallee(st.f.info, call); fn != nil {
+				id, ok = c.track["callee:"+fn.FullName()]
+			}
+		}
+		if ok {
+			if !c.seenSite[call.Pos()] {
+				c.seenSite[call.Pos()] = true
+				c.hits[id]++
+			}
+			return fmt.Sprintf("(SEv KCall %d)", id)
+		}
+	}
 	if k, mu, emb, ok := c.lockOp(st.f, call); ok {
 		n := c.objName(st.f, mu)
 		if emb != "" {
@@ -313,7 +342,7 @@ func (c *lctx) baseName(f *lfunc) string {
 			sb.WriteString("X")
 		}
 	}
-	return "lk_" + sb.String()
+	return c.prefix + sb.String()
 }
 
 func (c *lctx) funcBody(f *lfunc, depth int) string {
@@ -491,7 +520,15 @@ func (c *lctx) stmt(st *fstate, s ast.Stmt) string {
 }
 
 func runLockTrace(repo string, spec lockSpec, out string) {
-	c := &lctx{byObj: map[*types.Func]*lfunc{}, objs: map[string]int{}, goCount: map[string]int{}}
+	c := &lctx{byObj: map[*types.Func]*lfunc{}, objs: map[string]int{}, goCount: map[string]int{}, prefix: "lk_"}
+	if len(spec.Track) > 0 {
+		c.prefix, c.track, c.hits, c.seenSite = "co_", map[string]int{}, map[int]int{}, map[token.Pos]bool{}
+		for i, t := range spec.Track {
+			for _, m := range t.Match {
+				c.track[m] = i
+			}
+		}
+	}
 	if spec.Depth == 0 {
 		spec.Depth = 4
 	}
@@ -545,7 +582,11 @@ func runLockTrace(repo string, spec lockSpec, out string) {
 		return c.list[i].name < c.list[j].name
 	})
 	var sb strings.Builder
-	sb.WriteString("(* GENERATED by gotrans (locktrace) from " + repo + " on every run. Do not edit, do not commit. *)\n")
+	mode := "locktrace"
+	if c.track != nil {
+		mode = "calltrace"
+	}
+	sb.WriteString("(* GENERATED by gotrans (" + mode + ") from " + repo + " on every run. Do not edit, do not commit. *)\n")
 	sb.WriteString("From Coq Require Import NArith List String.\nFrom SigM Require Import LockTrace.\nImport ListNotations.\nOpen Scope N_scope.\nOpen Scope string_scope.\n\n")
 	type ent struct{ name, def string }
 	// one definition per function and depth; depth 0 cuts every call
@@ -575,7 +616,13 @@ func runLockTrace(repo string, spec lockSpec, out string) {
 	}
 	// prune: a definition without events whose callees are all pruned is SSkip
 	empty := map[string]bool{}
-	refRe := regexp.MustCompile(`lk_[A-Za-z0-9_]+_[0-9]+`)
+	refRe := regexp.MustCompile(c.prefix + `[A-Za-z0-9_]+_[0-9]+`)
+	lockEvRe := regexp.MustCompile(`\(SEv K(Lock|RLock|Unlock|RUnlock|Send|Recv) [0-9]+\)`)
+	if c.track != nil { // calltrace: only the tracked calls are events
+		for n, d := range defs {
+			defs[n] = lockEvRe.ReplaceAllString(d, "SSkip")
+		}
+	}
 	for changed := true; changed; {
 		changed = false
 		for _, n := range order {
@@ -614,15 +661,26 @@ func runLockTrace(repo string, spec lockSpec, out string) {
 			ents = append(ents, ent{g.name, n})
 		}
 	}
-	sb.WriteString("(* object names *)\nDefinition lk_objects : list (N * string) :=\n  [")
-	for i, n := range c.objList {
-		if i > 0 {
-			sb.WriteString(";\n   ")
+	if c.track != nil {
+		sb.WriteString("(* labels of the tracked calls, with the number of call sites matched *)\nDefinition co_labels : list (N * string * N) :=\n  [")
+		for i, t := range spec.Track {
+			if i > 0 {
+				sb.WriteString(";\n   ")
+			}
+			sb.WriteString(fmt.Sprintf("(%d, \"%s\", %d)", i, t.Label, c.hits[i]))
 		}
-		sb.WriteString(fmt.Sprintf("(%d, \"%s\")", i, n))
+		sb.WriteString("].\n\n")
+	} else {
+		sb.WriteString("(* object names *)\nDefinition lk_objects : list (N * string) :=\n  [")
+		for i, n := range c.objList {
+			if i > 0 {
+				sb.WriteString(";\n   ")
+			}
+			sb.WriteString(fmt.Sprintf("(%d, \"%s\")", i, n))
+		}
+		sb.WriteString("].\n\n")
 	}
-	sb.WriteString("].\n\n")
-	sb.WriteString("Definition lk_all : list (string * stm) :=\n  [")
+	sb.WriteString("Definition " + c.prefix + "all : list (string * stm) :=\n  [")
 	for i, e := range ents {
 		if i > 0 {
 			sb.WriteString(";\n   ")
@@ -630,7 +688,7 @@ func runLockTrace(repo string, spec lockSpec, out string) {
 		sb.WriteString("(\"" + e.name + "\", " + e.def + ")")
 	}
 	sb.WriteString("].\n\n")
-	sb.WriteString(fmt.Sprintf("(* calls cut by the depth limit %d or by recursion: %d *)\nDefinition lk_cut_calls : N := %d.\n", spec.Depth, c.cut, c.cut))
+	sb.WriteString(fmt.Sprintf("(* calls cut by the depth limit %d or by recursion: %d *)\nDefinition %scut_calls : N := %d.\n", spec.Depth, c.cut, c.prefix, c.cut))
 	_ = os.MkdirAll(filepath.Dir(out), 0o755)
 	if err := os.WriteFile(out, []byte(sb.String()), 0o644); err != nil {
 		fail("%v", err)
